@@ -31,18 +31,19 @@ type Ob struct {
 
 // Ctx collects obligations for one property.
 type Ctx struct {
-	w        *World
-	Prop     string
-	Tier     string
-	Obs      []Ob
-	Notes    []string
-	Analysed map[string]bool // functions looked at
-	rules    map[string]int
-	Extra    map[string]interface{}
+	w         *World
+	Prop      string
+	Tier      string
+	Obs       []Ob
+	Notes     []string
+	Analysed  map[string]bool // functions looked at
+	BoundsFns map[string]bool // functions whose index/slice obligations were enumerated
+	rules     map[string]int
+	Extra     map[string]interface{}
 }
 
 func newCtx(w *World, prop, tier string) *Ctx {
-	return &Ctx{w: w, Prop: prop, Tier: tier, Analysed: map[string]bool{}, rules: map[string]int{}, Extra: map[string]interface{}{}}
+	return &Ctx{w: w, Prop: prop, Tier: tier, Analysed: map[string]bool{}, BoundsFns: map[string]bool{}, rules: map[string]int{}, Extra: map[string]interface{}{}}
 }
 
 func (c *Ctx) add(rule, construct, pos, status, detail string, nontrivial bool) {
